@@ -16,7 +16,13 @@
        With partial pivoting c_r <= r only (the L factor of a band matrix is not banded: an entry exchanged downwards
        stays in the windows); WITHOUT exchanges c_r = min r m1 and row r is  al[j][r-j-1], j = r - c_r .. r-1
        ([band_forward_noswap_backward_error_lemma], constant gam m1).
-   The factors au, al, index are the COMPUTED ones: the error of the factorisation itself is not analysed here. *)
+     band_lu_backward_error_lemma :  the main loop of decompose (Higham Thm 9.3 for the compact band LU with partial pivoting),
+       row by row and exactly, with h = fhist r = [(a_t, j_t)] the multipliers of row r of L, c_r = length h, Uc the dense
+       reading of the computed au, D0 the dense reading of the matrix the loop started from:
+           (1 + dd) U_(r,c) + Sum_t (a_t + dL_t) Uc(j_t, c) = D0(fperm r, c)     c = r .. r+mm-1 ,  |dd|, |dL_t|/|a_t| <= gam c_r
+           Sum_(t' <= t) (a_t' + dL_t') Uc(j_t', j_t) = D0(fperm r, j_t)         for every stage j_t of the history, gam (t+1)
+       i.e.  L U = P B + dB ,  |dB| <= gam(c_r) |L||U|  in rows.  Hypothesis: the computed pivots are nonzero.
+   The constants of the triangular phases refer to the COMPUTED factors au, al, index. *)
 From Coq Require Import List Arith Lia Reals Lra Psatz Bool.
 From OV Require Import Base.Panic Base.Arith Base.RoundModel Model.Vector Model.Matrix Model.Banded
   Proofs.Matrix Proofs.Banded Proofs.BandedLU Proofs.RoundDot Proofs.RoundMatvec Proofs.Round2Band.
@@ -243,3 +249,198 @@ Proof using u_range fsub_ok fmul_ok.
 Qed.
 
 End RoundBand.
+
+(* ================================================================ the factorisation in the standard model *)
+(* components of the t-th element of a list of flagged (coefficient, value) pairs *)
+Definition kb (l : list (bool * (R * R))) (t : nat) : bool := fst (nth t l (false, (0, 0))).
+Definition ka (l : list (bool * (R * R))) (t : nat) : R := fst (snd (nth t l (false, (0, 0)))).
+Definition kv (l : list (bool * (R * R))) (t : nat) : R := snd (snd (nth t l (false, (0, 0)))).
+
+Section RoundBandLU.
+Variable u : R.
+Hypothesis u_range : 0 <= u < 1.
+Variables fadd fsub fmul fdiv : R -> R -> R.
+Hypothesis fsub_ok : forall x y, exists d, Rabs d <= u /\ fsub x y = (x - y) * (1 + d).
+Hypothesis fmul_ok : forall x y, exists d, Rabs d <= u /\ fmul x y = x * y * (1 + d).
+Hypothesis fdiv_ok : forall x y, y <> 0 -> exists d, Rabs d <= u /\ fdiv x y = x / y * (1 + d).
+
+Notation AR := (ARm fadd fsub fmul fdiv).
+Notation bnd := (bnd u).
+Notation gam := (gam u).
+
+(* the fold over the flagged pairs only: a skipped pair costs no operation *)
+Lemma sfoldk_round (l : list (bool * (R * R))) (s : R) :
+  exists P W, bnd (length l) P /\ (forall t, (t < length l)%nat -> bnd (t + 1) (W t)) /\
+    (sfold (A := AR) (map snd (filter fst l)) s : R)
+    = P * (s - Rsum (length l) (fun t => if kb l t then ka l t * kv l t * W t else 0)).
+Proof using u_range fsub_ok fmul_ok.
+  revert s. induction l as [|[[|] [a v]] l IH]; intros s.
+  - exists 1, (fun _ => 1). split; [apply bnd_0|]. split; [intros; cbn in *; lia|].
+    change (s = 1 * (s - 0)). ring.
+  - cbn [filter fst map snd].
+    change (sfold (A := AR) ((a, v) :: map snd (filter fst l)) s)
+      with (sfold (A := AR) (map snd (filter fst l)) (fsub s (fmul a v))).
+    destruct (fmul_bnd u u_range fmul fmul_ok a v) as (em & Hem & Em).
+    destruct (fsub_bnd u u_range fsub fsub_ok s (fmul a v)) as (es & Hes & Es).
+    destruct (IH (fsub s (fmul a v))) as (P & W & HP' & HW & E).
+    exists (P * es), (fun t => match t with O => em | S t' => W t' / es end).
+    cbn [length]. split; [replace (S (length l)) with (length l + 1)%nat by lia; now apply bnd_mul|]. split.
+    { intros [|t'] Ht; [exact Hem|]. replace (S t' + 1)%nat with ((t' + 1) + 1)%nat by lia.
+      apply bnd_div; [exact u_range|apply HW; lia|exact Hes]. }
+    rewrite E, Es, Em, Rsum_shift. unfold kb, ka, kv. cbn [nth fst snd].
+    fold (kb l). fold (ka l). fold (kv l).
+    rewrite (Rsum_ext (length l)
+               (fun k => if fst (nth k l (false, (0, 0)))
+                         then fst (snd (nth k l (false, (0, 0)))) * snd (snd (nth k l (false, (0, 0)))) * (W k / es) else 0)
+               (fun k => / es * (if kb l k then ka l k * kv l k * W k else 0))).
+    2:{ intros k Hk. unfold kb, ka, kv. cbv beta. pose proof (bnd_nz u u_range _ _ Hes).
+        destruct (fst (nth k l (false, (0, 0)))). field; assumption. ring. }
+    rewrite Rsum_scal. pose proof (bnd_nz u u_range _ _ Hes). unfold kb, ka, kv. field. assumption.
+  - cbn [filter fst map snd].
+    destruct (IH s) as (P & W & HP' & HW & E).
+    exists P, (fun t => match t with O => 1 | S t' => W t' end).
+    cbn [length]. split; [apply (bnd_mono u u_range (length l)); [lia|exact HP']|]. split.
+    { intros [|t'] Ht; [apply bnd_1; exact u_range|].
+      apply (bnd_mono u u_range (t' + 1)); [lia|apply HW; lia]. }
+    rewrite E, Rsum_shift. unfold kb, ka, kv. cbn [nth fst snd]. f_equal. ring_simplify. reflexivity.
+Qed.
+
+Lemma sfoldk_row (l : list (bool * (R * R))) (s v D : R) (c' N : nat) :
+  bnd c' D -> v * D = sfold (A := AR) (map snd (filter fst l)) s -> (length l + c' <= N)%nat -> INR N * u < 1 ->
+  exists (dd : R) (d : nat -> R),
+    Rabs dd <= gam N /\
+    (forall t, (t < length l)%nat -> Rabs (d t) <= gam N * Rabs (ka l t)) /\
+    v * (1 + dd) + Rsum (length l) (fun t => if kb l t then (ka l t + d t) * kv l t else 0) = s.
+Proof using u_range fsub_ok fmul_ok.
+  intros HD E HN Hu.
+  destruct (sfoldk_round l s) as (P & W & HP & HW & EP).
+  pose proof (bnd_nz u u_range _ _ HP) as Pnz.
+  exists (D / P - 1), (fun t => ka l t * (W t - 1)). split; [|split].
+  - apply (bnd_gam u u_range); [|exact Hu]. apply (bnd_mono u u_range (c' + length l)); [lia|].
+    apply bnd_div; assumption.
+  - intros t Ht. rewrite Rabs_mult, Rmult_comm. apply Rmult_le_compat_r; [apply Rabs_pos|].
+    apply (bnd_gam u u_range); [|exact Hu]. apply (bnd_mono u u_range (t + 1)); [lia|now apply HW].
+  - rewrite (Rsum_ext (length l) _ (fun t => if kb l t then ka l t * kv l t * W t else 0))
+      by (intros t Ht; destruct (kb l t); ring).
+    assert (E2 : v * D = P * (s - Rsum (length l) (fun t => if kb l t then ka l t * kv l t * W t else 0)))
+      by (rewrite E; exact EP).
+    replace (v * (1 + (D / P - 1))) with (v * D / P) by (field; exact Pnz).
+    rewrite E2. field. exact Pnz.
+Qed.
+
+(* the flagged pairs of a history against column c *)
+Definition kterms (au : matrix AR) (mm c : nat) (h : list (R * nat)) : list (bool * (R * R)) :=
+  map (fun p => ((c - snd p <? mm)%nat, (fst p, mat_at (A := AR) au mm (snd p) (c - snd p)))) h.
+
+Lemma uterms_kterms (au : matrix AR) mm c (h : list (R * nat)) :
+  uterms (A := AR) mm au c h = map snd (filter fst (kterms au mm c h)).
+Proof.
+  unfold uterms, kterms. change (Arith.T AR) with R. induction h as [|p h IH]; [reflexivity|]. cbn [filter map fst snd].
+  destruct (c - snd p <? mm)%nat; cbn [map snd filter fst]; [f_equal|]; exact IH.
+Qed.
+
+Lemma length_kterms au mm c (h : list (R * nat)) : length (kterms au mm c h) = length h.
+Proof. unfold kterms. apply map_length. Qed.
+
+Lemma nth_kterms au mm c (h : list (R * nat)) t : (t < length h)%nat ->
+  nth t (kterms au mm c h) (false, (0, 0))
+  = ((c - snd (nth t h (0%R, 0%nat)) <? mm)%nat,
+     (fst (nth t h (0, 0%nat)), mat_at (A := AR) au mm (snd (nth t h (0, 0%nat))) (c - snd (nth t h (0%R, 0%nat)))%nat)).
+Proof.
+  intros Ht. pose (f := fun p : R * nat => ((c - snd p <? mm)%nat, (fst p, mat_at (A := AR) au mm (snd p) (c - snd p)))).
+  change (nth t (map f h) (false, (0, 0)) = f (nth t h (0, 0%nat))).
+  rewrite (nth_indep (map f h) (false, (0, 0)) (f (0, 0%nat))) by now rewrite map_length.
+  apply map_nth.
+Qed.
+
+(* the dense reading of the computed upper factor: row j holds the columns j .. j+mm-1 *)
+Definition Uc (au : matrix AR) (mm j c : nat) : R :=
+  if ((j <=? c) && (c - j <? mm))%nat then mat_at (A := AR) au mm j (c - j) else 0.
+
+Lemma Req_zero_eqb (x : AR) : eqb x zero = true -> x = zero.
+Proof. cbn. destruct (Req_EM_T x 0); [auto|discriminate]. Qed.
+
+(* Higham Theorem 9.3 for the compact band factorisation, row by row *)
+Theorem band_lu_backward_error_lemma (n mm m1 : nat) (au0 al0 : matrix AR) (index0 : list nat) (d0 : R)
+        (au al : matrix AR) (index : list nat) (d : R) (lf : nat) :
+  cols au0 = mm -> cols al0 = m1 -> (1 <= mm)%nat -> (m1 <= n)%nat ->
+  for_ 0 n (dec_step (A := AR) false n mm) (au0, al0, index0, d0, m1) = Ok (au, al, index, d, lf) ->
+  (forall k, (k < n)%nat -> mat_at (A := AR) au mm k 0 <> 0) ->
+  forall r, (r < n)%nat ->
+    let h : list (R * nat) := fhist (A := AR) n m1 al index n r in
+    INR (length h) * u < 1 ->
+    (forall s, (s < mm)%nat ->
+       exists (dd : R) (dL : nat -> R),
+         Rabs dd <= gam (length h) /\
+         (forall t, (t < length h)%nat -> Rabs (dL t) <= gam (length h) * Rabs (fst (nth t h (0, 0%nat)))) /\
+         (1 + dd) * mat_at (A := AR) au mm r s
+         + Rsum (length h) (fun t => (fst (nth t h (0, 0%nat)) + dL t) * Uc au mm (snd (nth t h (0, 0%nat))) (r + s))
+         = D0 (A := AR) mm m1 au0 (fperm index n r) (r + s)) /\
+    (forall t, (t < length h)%nat ->
+       exists dL : nat -> R,
+         (forall t', (t' <= t)%nat -> Rabs (dL t') <= gam (t + 1) * Rabs (fst (nth t' h (0, 0%nat)))) /\
+         Rsum (S t) (fun t' => (fst (nth t' h (0, 0%nat)) + dL t')
+                               * Uc au mm (snd (nth t' h (0, 0%nat))) (snd (nth t h (0%R, 0%nat))))
+         = D0 (A := AR) mm m1 au0 (fperm index n r) (snd (nth t h (0%R, 0%nat)))).
+Proof using u_range fsub_ok fmul_ok fdiv_ok.
+  intros Hc Hcl Hmm Hm1 E Hpiv r Hr h Hu.
+  destruct (band_dec_trace_lemma (A := AR) Req_zero_eqb n mm m1 au0 al0 index0 d0 au al index d lf Hc Hcl Hmm Hm1 E)
+    as (Hc' & Hcl' & Hix & Hcond).
+  destruct (Hcond Hpiv) as (Hrow & Hlok). clear Hcond.
+  assert (Hix' : forall k, (k < n)%nat -> (k + 1 <= nth k index 0%nat)%nat) by (intros k Hk; apply Hix; exact Hk).
+  assert (Htag : forall t, (t < length h)%nat -> (snd (nth t h (0%R, 0%nat)) < r)%nat).
+  { intros t Ht. apply (fhist_final_tags (A := AR) n m1 al index r); [exact Hix'|exact Hr|]. now apply nth_In. }
+  split.
+  - intros s Hs. pose proof (Hrow r s Hr Hs) as Tr. fold h in Tr.
+    rewrite uterms_kterms in Tr. change (Arith.T AR) with R in Tr.
+    assert (E1 : mat_at (A := AR) au mm r s * 1
+                 = sfold (A := AR) (map snd (filter fst (kterms au mm (r + s) h)))
+                     (D0 (A := AR) mm m1 au0 (fperm index n r) (r + s))) by (rewrite Rmult_1_r; exact Tr).
+    destruct (sfoldk_row (kterms au mm (r + s) h) _ _ 1 0 (length h) (bnd_0 u) E1
+                ltac:(rewrite length_kterms; lia) Hu) as (dd & dL & Hdd & HdL & Es).
+    rewrite length_kterms in HdL, Es.
+    exists dd, dL. split; [exact Hdd|]. split.
+    + intros t Ht. specialize (HdL t Ht). unfold ka in HdL. rewrite nth_kterms in HdL by exact Ht. exact HdL.
+    + rewrite <- Es. f_equal; [ring|]. apply Rsum_ext. intros t Ht.
+      unfold kb, ka, kv. rewrite nth_kterms by exact Ht. cbn [fst snd]. unfold Uc.
+      pose proof (Htag t Ht) as Hj.
+      replace (snd (nth t h (0%R, 0%nat)) <=? r + s)%nat with true by (symmetry; apply Nat.leb_le; lia).
+      cbn [andb]. destruct (r + s - snd (nth t h (0%R, 0%nat)) <? mm)%nat; ring.
+  - intros t Ht. pose proof (Hlok r Hr t Ht) as Lk. fold h in Lk. cbn zeta in Lk.
+    change (@zero AR) with 0 in Lk. change (Arith.T AR) with R in Lk.
+    set (j := snd (nth t h (0, 0%nat))) in *. set (a := fst (nth t h (0, 0%nat))) in *.
+    rewrite uterms_kterms in Lk.
+    set (X := sfold (A := AR) (map snd (filter fst (kterms au mm j (firstn t h))))
+                (D0 (A := AR) mm m1 au0 (fperm index n r) j)) in *.
+    set (U := mat_at (A := AR) au mm j 0) in *.
+    change (Ok (fdiv X U) = Ok a) in Lk. injection Lk as Lk.
+    assert (HU : U <> 0) by (apply Hpiv; pose proof (Htag t Ht); unfold j; lia).
+    destruct (fdiv_bnd u u_range fdiv fdiv_ok X U HU) as (ed & Hed & Ed).
+    pose proof (bnd_nz u u_range _ _ Hed) as Enz.
+    assert (E1 : a * U * / ed = X) by (rewrite <- Lk, Ed; field; split; assumption).
+    assert (Lf : length (firstn t h) = t) by (rewrite firstn_length; lia).
+    assert (Hut : INR (t + 1) * u < 1).
+    { assert (Hle : (t + 1 <= length h)%nat) by lia. pose proof (le_INR _ _ Hle) as Hle'.
+      destruct u_range as [U0 _]. assert (0 <= (INR (length h) - INR (t + 1)) * u) by (apply Rmult_le_pos; lra). lra. }
+    destruct (sfoldk_row (kterms au mm j (firstn t h)) _ (a * U) (/ ed) 1 (t + 1)
+                (bnd_inv u u_range _ _ Hed) E1 ltac:(rewrite length_kterms, Lf; lia) Hut) as (dd & dL & Hdd & HdL & Es).
+    rewrite length_kterms, Lf in HdL, Es.
+    exists (fun t' => if (t' <? t)%nat then dL t' else a * dd). split.
+    + intros t' Ht'. destruct (Nat.ltb_spec t' t) as [L|G].
+      * specialize (HdL t' L). unfold ka in HdL. rewrite nth_kterms in HdL by (rewrite Lf; exact L).
+        rewrite nth_firstn_lt in HdL by exact L. exact HdL.
+      * assert (t' = t) as -> by lia. fold a. rewrite Rabs_mult, Rmult_comm.
+        apply Rmult_le_compat_r; [apply Rabs_pos|exact Hdd].
+    + cbn [Rsum]. rewrite Nat.ltb_irrefl. fold a. rewrite <- Es. rewrite Rplus_comm. f_equal.
+      * unfold Uc. fold j. rewrite Nat.leb_refl, Nat.sub_diag.
+        replace (0 <? mm)%nat with true by (symmetry; apply Nat.ltb_lt; lia). cbn [andb]. fold U. ring.
+      * apply Rsum_ext. intros t' Ht'. destruct (Nat.ltb_spec t' t) as [_|]; [|lia].
+        unfold kb, ka, kv. rewrite nth_kterms by (rewrite Lf; exact Ht'). cbn [fst snd].
+        rewrite !nth_firstn_lt by exact Ht'. unfold Uc.
+        assert (Hs : (snd (nth t' h (0%R, 0%nat)) < j)%nat)
+          by exact (fhist_sorted (A := AR) n m1 al index n r t' t Ht' Ht).
+        replace (snd (nth t' h (0%R, 0%nat)) <=? j)%nat with true by (symmetry; apply Nat.leb_le; lia).
+        cbn [andb]. destruct (j - snd (nth t' h (0%R, 0%nat)) <? mm)%nat; ring.
+Qed.
+
+End RoundBandLU.
